@@ -2,6 +2,7 @@
 //   vf_numth sieve   <lo> <hi>            is_prime(n) for n in [lo,hi) against a segmented sieve;
 //                                          find_prime_factor(n) for the same n when hi <= fpf_limit (argv[4])
 //   vf_numth adv     <shard> <nshards> <tier>   adversarial 64-bit sets (oracle-generated)
+//   vf_numth multi   <shard> <nshards> <count> <seed>   products of 3-6 primes above the trial-division table
 //   vf_numth falsesq <shard> <nshards> <log2rho>  "false square" candidates (2-adic lifting)
 //   vf_numth mod     <count> <seed>       modular helpers on random/boundary operands
 #include <algorithm>
@@ -207,6 +208,41 @@ static int task_adv(u64 shard, u64 nshards, int tier, u64 seed) {
     return 0;
 }
 
+// Products of three to six primes that are all beyond the library's trial-division table (the first 100 primes, <= 541), repeated
+// primes included: whatever the factor finder splits off such a number is again composite unless it keeps going.
+static int task_multi(u64 shard, u64 nshards, u64 count, u64 seed) {
+    std::vector<u64> ps;
+    {
+        const u64 top = 1u << 16;
+        std::vector<char> sv(top, 1);
+        for (u64 i = 2; i < top; ++i) if (sv[i]) { if (i > 541) ps.push_back(i); for (u64 j = i * i; j < top; j += i) sv[j] = 0; }
+    }
+    static std::vector<u64> mine;
+    vf::Rng r(seed * 1000003 + shard);
+    (void)nshards;
+    while (mine.size() < count) {
+        int k = 3 + (int)(r.next() % 4);
+        // primes below 2^(64/k), from a window that is narrow half of the time (many products of primes of one size)
+        u64 lim = (k == 3) ? (1u << 16) : (k == 4 ? (1u << 16) : (k == 5 ? 7100 : 1620));
+        size_t hi = std::upper_bound(ps.begin(), ps.end(), lim) - ps.begin();
+        if ((r.next() & 1) && hi > 120) hi = 120 + r.next() % (hi - 120);
+        u128 n = 1;
+        u64 last = 0;
+        for (int i = 0; i < k; ++i) {
+            u64 p = (last && r.next() % 8 == 0) ? last : ps[r.next() % hi];
+            n *= p; last = p;
+        }
+        if (n >> 64) continue;
+        mine.push_back((u64)n);
+    }
+    static const u64 *pm;
+    pm = mine.data();
+    vf::run_loop(0, mine.size(), [&](u64 i) { check_prime(pm[i], false); });
+    vf::run_loop(0, mine.size(), [&](u64 i) { check_factor(pm[i]); });
+    dump("multi");
+    return 0;
+}
+
 // 2-adic square root: s with s*s == u (mod 2^k), u == 1 (mod 8), 3 <= k <= 64
 VF_NOSAN static u64 sqrt2adic(u64 u, int k) {
     u64 s = 1;
@@ -335,5 +371,6 @@ int main(int argc, char **argv) {
     if (t == "adv") return task_adv(U(2), U(3), (int)U(4), U(5));
     if (t == "falsesq") return task_falsesq(U(2), U(3), (int)U(4));
     if (t == "mod") return task_mod(U(2), U(3));
+    if (t == "multi") return task_multi(U(2), U(3), U(4), U(5));
     return 2;
 }
